@@ -822,7 +822,7 @@ func runMeta(in input) vh.Result {
 
 	var steps []string
 	var obsJSON []any
-	for _, op := range in.Ops {
+	for opIdx, op := range in.Ops {
 		var coqOp string
 		var outs []string
 		var outsJ []any
@@ -861,10 +861,25 @@ func runMeta(in input) vh.Result {
 		default:
 			panic("bad meta op kind " + op.K)
 		}
-		dumps := make([]string, len(keys))
-		dumpsJ := make([]any, len(keys))
-		for i, k := range keys {
-			dumps[i], dumpsJ[i] = dumpOne(ctx, db, k)
+		// tables of the messages this call addresses; of every message after the last call
+		touched := map[msgKey]bool{}
+		if op.Ev != nil {
+			if ch, mn, ok := validMsg(*op.Ev); ok {
+				touched[msgKey{op.HS, ch, op.Ev.Ty, mn}] = true
+			}
+		}
+		for _, b := range op.B {
+			if ch, mn, ok := validMsg(b.Ev); ok {
+				touched[msgKey{b.HS, ch, b.Ev.Ty, mn}] = true
+			}
+		}
+		var dumps []string
+		var dumpsJ []any
+		for _, k := range keys {
+			if touched[k] || opIdx == len(in.Ops)-1 {
+				d, j := dumpOne(ctx, db, k)
+				dumps, dumpsJ = append(dumps, d), append(dumpsJ, j)
+			}
 		}
 		steps = append(steps, vh.Pair(coqOp, vh.App("mkMetaObs", vh.List(outs), commit, vh.List(dumps))))
 		obsJSON = append(obsJSON, map[string]any{"results": outsJ, "commit": commit, "tables": dumpsJ})
@@ -999,7 +1014,7 @@ func runNode(in input) vh.Result {
 	flags := map[string]bool{}
 	var steps []string
 	var obsJSON []any
-	for _, op := range in.Ops {
+	for opIdx, op := range in.Ops {
 		tick()
 		var coqOp string
 		errC, resC := "ENone", vh.None()
@@ -1115,10 +1130,20 @@ func runNode(in input) vh.Result {
 			caches[i] = vh.App("mkCacheDump", vh.HexS(k.ch), vh.Z(k.ty), vh.HexS(k.mn), vh.ListOf(states, coqStateCache))
 			cachesJ[i] = map[string]any{"ch": k.ch, "mn": k.mn, "lanes": states}
 		}
-		dumps := make([]string, len(keys))
-		dumpsJ := make([]any, len(keys))
-		for i, k := range keys {
-			dumps[i], dumpsJ[i] = dumpOne(ctx, db, k)
+		// tables of the message this call addresses; of every message after the last step
+		var dumps []string
+		var dumpsJ []any
+		for _, k := range keys {
+			touched := false
+			if op.Ev != nil {
+				if ch, mn, ok := validMsg(*op.Ev); ok && k.ch == ch && k.mn == mn && k.ty == op.Ev.Ty {
+					touched = true
+				}
+			}
+			if touched || opIdx == len(in.Ops)-1 {
+				d, j := dumpOne(ctx, db, k)
+				dumps, dumpsJ = append(dumps, d), append(dumpsJ, j)
+			}
 		}
 		sessions := node.CacheObservation().Sessions
 		steps = append(steps, vh.Pair(coqOp, vh.App("mkNodeObs", errC, resC, vh.List(props), vh.List(caches), vh.N(uint64(sessions)), vh.List(dumps))))
